@@ -14,6 +14,7 @@ pub mod bn;
 pub mod ctx;
 pub mod elem;
 pub mod bytes;
+pub mod poly;
 pub mod smt;
 pub mod world;
 
